@@ -268,8 +268,20 @@ class C10(Property):
                     how = ET_EDITS[(i + len(edits)) % len(ET_EDITS)] if rng.random() < 0.5 else rng.choice(ET_EDITS)
                     et2 = edit_et(rng, et2, ots2, how)
                     edits.append('et:' + how)
-            yield {'kind': 'upgrade', 'ots': ots, 'et': et, 'ots2': ots2, 'et2': et2, 'edits': edits,
-                   'events': gen_events(rng, ots, et, 6)}
+            c = {'kind': 'upgrade', 'ots': ots, 'et': et, 'ots2': ots2, 'et2': et2, 'edits': edits,
+                 'events': gen_events(rng, ots, et, 6)}
+            if rng.random() < 0.4:
+                # another candidate (other edits of the same old definitions, hence often the same new version numbers) is
+                # compared with the old ontology first; the verdict on the real candidate must not depend on that
+                ots1, et1 = copy.deepcopy(ots), copy.deepcopy(et)
+                for _ in range(rng.choice([1, 2])):
+                    if rng.random() < 0.4:
+                        k = rng.randrange(len(ots1))
+                        ots1[k] = edit_ot(rng, ots1[k], rng.choice(OT_EDITS))
+                    else:
+                        et1 = edit_et(rng, et1, ots1, rng.choice(ET_EDITS))
+                c['first'] = {'ots': ots1, 'et': et1}
+            yield c
 
     # -- implementation
     def observe(self, case):
@@ -284,6 +296,24 @@ class C10(Property):
         except Exception as ex:
             # the generator produced a definition that is not a valid ontology by itself: not a case
             return {'accepted': 'unbuildable', 'events': []}
+        if case.get('first'):
+            try:
+                o_first = build_ontology(case['first']['ots'], case['first']['et'])
+                for a, b in ((o_first, o_up), (o_up, o_first)):
+                    try:
+                        a == b
+                    except Exception:
+                        pass
+                try:
+                    # an update that is rejected leaves the ontology as it was
+                    before = o_up.generate_xml()
+                    import copy as _copy
+                    trial = _copy.deepcopy(o_up)
+                    trial.update(o_first)
+                except Exception:
+                    pass
+            except Exception:
+                pass
         try:
             o_up.update(o_new)
             accepted = True
